@@ -252,6 +252,21 @@ class Emitter:
             return "client" in recv
         return False
 
+    def _site_key(self, fn: FuncInfo, c: ast.Call) -> str:
+        """Key of a blocking call site: function + callee shape + ordinal among equal shapes (local names are incidental)."""
+        def shape(call: ast.Call) -> str:
+            f = call.func
+            if isinstance(f, ast.Attribute):
+                d = dotted(f.value)
+                recv = d if d and d.split(".")[0] in ("self", "cls", "time") else "*"
+                return f"{recv}.{f.attr}(...)"
+            return f"{dotted(f) or '?'}(...)"
+
+        sh = shape(c)
+        same = [x for x in calls(fn.node, into_nested=False) if shape(x) == sh]
+        idx = next((i for i, x in enumerate(same) if x is c), 0)
+        return f"{fn.qualname}: {sh}" + (f" #{idx + 1}" if len(same) > 1 else "")
+
     def ki_summary(self, fn: FuncInfo, depth: int = 0) -> set[str]:
         """Keys of blocking-call sites at which an asynchronous KeyboardInterrupt can leave `fn` uncaught."""
         if fn.qualname in self._ki_summary_cache:
@@ -266,7 +281,7 @@ class Emitter:
             if self._caught_ki(fn, c):
                 continue
             if self._is_blocking(fn, c):
-                key = f"{fn.qualname}: {unparse(c, 80)}"
+                key = self._site_key(fn, c)
                 self.ki_sites[key] = KISite(key, fn, c)
                 out.add(key)
             elif depth < 3:
@@ -390,7 +405,7 @@ class Emitter:
                     continue
                 keys: set[str] = set()
                 if self._is_blocking(fn, c):
-                    key = f"{fn.qualname}: {unparse(c, 80)}"
+                    key = self._site_key(fn, c)
                     self.ki_sites[key] = KISite(key, fn, c)
                     keys.add(key)
                 else:
